@@ -86,6 +86,7 @@ pub fn arb_net(g: XferGen) -> impl Strategy<Value = NetSpec> {
                 mtu_steps,
                 drv,
                 time_shift_us: 0,
+                client_move_at_us: None,
             }
         })
 }
